@@ -34,6 +34,20 @@ def evalPred (name : String) (a : List String) : Option (Bool × Bool) :=
   | "macho_fat_table_outside", [x, y, z] => some (macho_fat_table_outside x y z, false)
   | "elf_table_wraps", [x, y] => some (elf_table_wraps x y, false)
   | "elf_table_outside", [x, y, z, w] => some (elf_table_outside x y z w, false)
+  | "pe_available_before", [x, y, z] => some (pe_available_before x y z, false)
+  | "pe_available_after", [x, y, z] => some (pe_available_after x y z, pe_available_after_ub x y z)
+  | "pe_available_space", [x, y, z] =>   -- the whole function: 0 when either early return is taken
+      some (!(pe_available_before x y z) && !(pe_available_after x y z) && (pe_available_value x y z != 0#64), pe_available_after_ub x y z)
+  | "pe_rich_nthdr_reject", [x, y] => some (pe_rich_nthdr_reject x y, false)
+  | "pe_exports_table_outside", [x, y, z] => some (pe_exports_table_outside x y z, false)
+  | "pe_export_names_outside", [x, y, z] => some (pe_export_names_outside x y z, false)
+  | "pe_security_dir_reject", [x, y, z] => some (pe_security_dir_reject x y z, false)
+  | "dotnet_blob4_ok", [x, y, z] => some (dotnet_blob4_ok x y z, dotnet_blob4_ok_ub x y z)
+  | "dotnet_blob_entry_outside", [x, y, z, w] => some (dotnet_blob_entry_outside x y z w, dotnet_blob_entry_outside_ub x y z w)
+  | "dotnet_blob_index_reject", [x, y, z, w] => some (dotnet_blob_index_reject x y z w, dotnet_blob_index_reject_ub x y z w)
+  | "dotnet_attr_blob_reject", [x, y, z, w] => some (dotnet_attr_blob_reject x y z w, dotnet_attr_blob_reject_ub x y z w)
+  | "dotnet_attr_str_outside", [x, y, z, w] => some (dotnet_attr_str_outside x y z w, dotnet_attr_str_outside_ub x y z w)
+  | "elf_str_entry_outside", [x, y] => some (elf_str_entry_outside x y, false)
   | _, _ => none
 
 def parseSects : List String → List Sect
